@@ -51,6 +51,8 @@ def units(tier, seed):
                         shape_sets = shape_sets[:2] if n == 2 else shape_sets[1:2]
                     for shp in shape_sets:
                         cases.append({"keys": list(perm), "shapes": [list(s) for s in shp]})
+                    if n == 2:
+                        cases.append({"keys": list(perm), "shapes": [list(s) for s in shape_sets[0]], "offset": True})
             us.append({"part": "direct", "kernel": kern, "diag": diag, "cases": cases})
     # engine
     cfgs = []
@@ -84,7 +86,7 @@ def units(tier, seed):
 # ---------------------------------------------------------------------------------
 
 
-def synth_history(keys, shapes, T=7):
+def synth_history(keys, shapes, T=7, offset=False):
     """Deterministic history with pairwise distinct variances and non-zero covariances."""
     import numpy as np
 
@@ -96,6 +98,8 @@ def synth_history(keys, shapes, T=7):
         for _ in range(size):
             t = np.arange(T, dtype=np.float64)
             col = (0.4 + 0.3 * j) * np.sin(0.9 * (j + 1) * t + 0.3 * j) + 0.2 * np.cos(0.5 * t) + 0.05 * j * t
+            if offset and j % 2 == 0:
+                col = 2000.0 + 0.25 * col  # far from zero relative to its spread
             cols.append(col)
             j += 1
         hist[k] = np.stack(cols, axis=1).reshape((T,) + tuple(shp)).astype(np.float32)
@@ -159,7 +163,7 @@ def run_direct(res, unit):
     kern, diag = unit["kernel"], unit["diag"]
     for case in unit["cases"]:
         keys, shapes = case["keys"], [tuple(s) for s in case["shapes"]]
-        hist = synth_history(keys + ["other"], shapes + [()])
+        hist = synth_history(keys + ["other"], shapes + [()], offset=bool(case.get("offset")))
         own = {k: hist[k] for k in keys}
         order = flat_order(keys, shapes)
         d = len(order)
@@ -193,7 +197,11 @@ def run_direct(res, unit):
                 if got.shape != ((d,) if diag else (d, d)):
                     res.violation("direct", f"shape-{kern}", cname, f"inverse mass matrix has shape {got.shape}, position has {d} coordinates ({cname})")
                     continue
-                if not close(got, ref):
+                if case.get("offset"):
+                    ok = got.shape == np.shape(ref) and bool(np.all(np.abs(got - ref) <= 2e-4 + 5e-3 * np.abs(ref)))
+                else:
+                    ok = close(got, ref)
+                if not ok:
                     # diagnose: does it match some other coordinate order?
                     listed = [(kk, i) for kk, shp in zip(h.keys(), [hist[x].shape[1:] for x in h.keys()]) for i in range(int(np.prod(shp)) if shp else 1) if kk in keys]
                     alt = ref_inv_mm(own, listed, diag) if len(listed) == d else None
